@@ -242,3 +242,76 @@ Proof.
   - intros _. apply app_eq_nil in E. exact E.
   - intros H. apply in_map_iff in H. destruct H as [j [Hj _]]. discriminate.
 Qed.
+
+(* ---- CompleteStage: which status it stores ---- *)
+Definition stage_status_of (s : state) (i : nat) (st : stage) : status :=
+  determine_status (s_status st) (s_cof st) (s_fp st) (map (status_at s) (kids s i OwnBefore))
+                   (map t_status (s_tasks st)) (map (status_at s) (kids s i OwnAfter)).
+
+(* every store of the stage itself by CompleteStage either keeps its status (planning after / on-failure stages) or
+   sets exactly determine_status over the stage's tasks and the CURRENT statuses of its before / after stages
+   (with the _blocking_failure conversion) *)
+Theorem complete_stage_stores s id i st c p :
+  get_stage s i = Some st -> In c (h_commits (handle_complete_stage s id i)) -> In (OPut i p) c ->
+  s_status p = s_status st \/
+  s_status p = (let x := stage_status_of s i st in
+                if status_eqb x FAILED_CONTINUE && y_blocking (s_syn st) then TERMINAL else x).
+Proof.
+  intros Hs. unfold handle_complete_stage. rewrite Hs.
+  destruct (status_eqb _ NOT_STARTED). { simpl. intros [H|[]] Hin. subst c. simpl in Hin. destruct Hin as [H|[]]; discriminate. }
+  destruct (negb _).
+  { destruct (is_halt _); simpl; [|intros []]. intros [H|[]] Hin. subst c. simpl in Hin. destruct Hin as [H|[H|[]]]; discriminate. }
+  cbn zeta. fold (stage_status_of s i st).
+  match goal with |- context [if ?c then ok [txn [c_put i (st_touch st); _; _; _]] else _] => destruct c end.
+  { simpl. intros [H|[]] Hin. subst c. cbn [txn concat app c_put c_mark] in Hin. simpl in Hin.
+    destruct Hin as [H|Hin]; [inversion H; subst p; left; reflexivity|].
+    exfalso. apply in_app_or in Hin. destruct Hin as [Hin|Hin].
+    - apply in_map_iff in Hin. destruct Hin as [x [E _]]. discriminate.
+    - simpl in Hin. destruct Hin as [H|Hin]; [discriminate|]. rewrite app_nil_r in Hin.
+      apply in_map_iff in Hin. destruct Hin as [x [E _]]. discriminate. }
+  match goal with |- context [if ?c then ok [c_mark id] else _] => destruct c end.
+  { simpl. intros [H|[]] Hin. subst c. simpl in Hin. destruct Hin as [H|[]]; discriminate. }
+  match goal with |- context [if ?c then ok [txn [c_put i (st_touch (with_onfail st true)); _; _; _]] else _] => destruct c end.
+  { simpl. intros [H|[]] Hin. subst c. cbn [txn concat app c_put c_mark] in Hin. simpl in Hin.
+    destruct Hin as [H|Hin]; [inversion H; subst p; left; reflexivity|].
+    exfalso. apply in_app_or in Hin. destruct Hin as [Hin|Hin].
+    - apply in_map_iff in Hin. destruct Hin as [x [E _]]. discriminate.
+    - simpl in Hin. destruct Hin as [H|Hin]; [discriminate|]. rewrite app_nil_r in Hin.
+      apply in_map_iff in Hin. destruct Hin as [x [E _]]. discriminate. }
+  destruct (status_eqb (stage_status_of s i st) RUNNING).
+  { simpl. intros [H|[]] Hin. subst c. simpl in Hin. destruct Hin as [H|[]]; discriminate. }
+  set (st2 := if negb (is_nil _) then with_onfail st true else st).
+  assert (y_blocking (s_syn st2) = y_blocking (s_syn st)) as Eb by (unfold st2; destruct (negb (is_nil _)); reflexivity).
+  rewrite Eb.
+  set (x2 := if status_eqb (stage_status_of s i st) FAILED_CONTINUE && y_blocking (s_syn st) then TERMINAL else stage_status_of s i st).
+  destruct (negb (can_transition (s_status st2) x2)); [intros []|].
+  destruct (status_eqb x2 SUCCEEDED || status_eqb x2 FAILED_CONTINUE || status_eqb x2 SKIPPED).
+  - cbn [h_commits ok]. intros Hc Hin. apply in_app_or in Hc. destruct Hc as [Hc|Hc].
+    + (* join tracking writes only OMut *)
+      exfalso. unfold join_tracking in Hc. apply in_flat_map in Hc. destruct Hc as [d [_ Hd]].
+      destruct (get_stage s d) as [dst|]; [|destruct Hd].
+      destruct (s_join dst); try (destruct Hd; fail); destruct (mem_nat i (s_branches dst)); try (destruct Hd; fail);
+        (destruct Hd as [Hd|[]]; subst c; simpl in Hin; destruct Hin as [H|[]]; discriminate).
+    + destruct Hc as [Hc|[]]. subst c. cbn [txn concat app c_put c_mark] in Hin. simpl in Hin.
+      destruct Hin as [H|Hin]; [inversion H; subst p; right; reflexivity|].
+      exfalso. destruct Hin as [H|Hin]; [discriminate|]. rewrite app_nil_r in Hin.
+      apply in_map_iff in Hin. destruct Hin as [x [E _]]. discriminate.
+  - simpl. intros [H|[]] Hin. subst c. simpl in Hin.
+    destruct Hin as [H|[H|[H|[]]]]; try discriminate. inversion H; subst p. right. reflexivity.
+Qed.
+
+(* ---- recovery: a planned parent whose before stages are unfinished is left alone ---- *)
+Theorem recover_leaves_waiting_parent s i st :
+  s_status st = RUNNING -> s_plan_pending st = false ->
+  (forall tk, In tk (s_tasks st) -> t_status tk <> RUNNING) ->
+  existsb (fun j => negb (is_complete (status_at s j))) (kids s i OwnBefore) = true ->
+  recover_stage s i st = [].
+Proof.
+  intros E P T K. unfold recover_stage. rewrite E. simpl status_eqb. cbv iota.
+  assert (filter (fun t => match nth_error (s_tasks st) t with Some tk => status_eqb (t_status tk) RUNNING | None => false end)
+                 (seqn (length (s_tasks st))) = []) as F.
+  { apply filter_nil_iff. intros t _. destruct (nth_error (s_tasks st) t) as [tk|] eqn:Hn; [|reflexivity].
+    specialize (T tk (nth_error_In _ _ Hn)). destruct (status_eqb (t_status tk) RUNNING) eqn:Q; [|reflexivity].
+    apply status_eqb_eq in Q. contradiction. }
+  rewrite F, P, K. reflexivity.
+Qed.
